@@ -200,6 +200,13 @@ package parse
 //@   maypanic
 //@   assert @store:F.sysl.Endpoint.Stmt [call-recorded-on-the-published-event] len(stored) > 0 ==> in(eventName, srcApp.Endpoints) && target == srcApp.Endpoints[eventName]
 
+// The primary key of a table declared over several blocks is only ever extended: the key holder is created when
+// there is none, and a block adds its own ~pk fields behind the key columns recorded so far.
+//@ func (*TreeShapeListener).ExitTable
+//@   maypanic
+//@   assert @store:F.sysl.Type_Relation.PrimaryKey [key-holder-created-once] target.PrimaryKey == nil
+//@   assert @store:F.sysl.Type_Relation_Key.AttrName [key-columns-only-added] len(stored) >= len(target.AttrName) && forall(i, 0, len(target.AttrName), stored[i] == target.AttrName[i])
+
 // The field table of a (re)declared table or tuple is a new map or the field map of the existing relation / tuple of
 // that name — never the (nil) field map of some other kind of type (EnterField writes into it).
 //@ func (*TreeShapeListener).EnterTable
